@@ -75,6 +75,27 @@ Section SineFacts.
     transitivity ((0 + (qnat n + 1) * (1 / inject_Z tpb)) * f + qnat p * f / inject_Z tpb); [field; lra|].
     rewrite E. reflexivity.
   Qed.
+  (* period 1 / frequency beats, for the waveform as a function of time *)
+  Lemma wave_period_beats f lo hi t : ~ f == 0 ->
+    lfo_wave sin2pi f lo hi (t + 1 / f) == lfo_wave sin2pi f lo hi t.
+  Proof. intros Hf. apply wave_period. field. exact Hf. Qed.
+
+  (* the same two facts from any state of the LFO (after reset / a change of its fields), not only a new one *)
+  Lemma lfo_range_from tpb l n : l_min l <= l_max l ->
+    l_min l <= lfo_value (lfo_ticks sin2pi tpb (S n) l) <= l_max l.
+  Proof. intros H. unfold lfo_value. rewrite lfo_value_after. apply wave_range. exact H. Qed.
+
+  Lemma lfo_periodic_from tpb l (p n : nat) : (0 < tpb)%Z -> qnat p * l_freq l == inject_Z tpb ->
+    lfo_value (lfo_ticks sin2pi tpb (S n + p) l) == lfo_value (lfo_ticks sin2pi tpb (S n) l).
+  Proof.
+    intros Ht Hp. unfold lfo_value. change (S n + p)%nat with (S (n + p)). rewrite !lfo_value_after.
+    apply wave_period.
+    assert (Hq : 0 < inject_Z tpb) by (change 0 with (inject_Z 0); rewrite <- Zlt_Qlt; exact Ht).
+    rewrite !qnat_S. unfold qnat. rewrite Nat2Z.inj_add, inject_Z_plus. fold (qnat n) (qnat p).
+    assert (E : qnat p * l_freq l / inject_Z tpb == 1) by (rewrite Hp; field; lra).
+    transitivity ((l_time l + (qnat n + 1) * (1 / inject_Z tpb)) * l_freq l + qnat p * l_freq l / inject_Z tpb); [field; lra|].
+    rewrite E. reflexivity.
+  Qed.
 End SineFacts.
 
 (* non-vacuity of the hypotheses on sin2pi: any function of the fractional part of x with values in [-1, 1]
